@@ -121,7 +121,7 @@ theorem c15_fail_only (m : Emit Unit) (k : Nat) (hk : k < m.chunks.length) :
 theorem c15_sites : ∀ s ∈ Generated.writeSites, s.checked = true := by decide
 
 /-- the renderers' source has write sites at all (the obligation above is not vacuous) -/
-theorem c15_sites_nonempty : Generated.writeSites.length ≥ 30 := by decide
+theorem c15_sites_nonempty : Generated.writeSites.length ≥ 5 := by decide
 
 /- non-vacuity: a two-chunk program, the fail-only-at-0 script -/
 example : (runEmit (fun i => if i = 0 then some 0 else none) ⟨[[1], [2]], .ok ()⟩).2 = some (.err .writer) := by decide
